@@ -10,7 +10,7 @@ import itertools
 
 import numpy
 
-from .. import core
+from .. import core, forms
 
 
 # --------------------------------------------------------------------------- building real dims
@@ -27,21 +27,99 @@ def entries_from_dense(arr, common):
     return ents
 
 
+# Form tags (harness/forms.py): the CONTENT of a spec is its dense array + common; spec["form"] records in which form
+# the content is handed to the library, as JSON-able tags that are re-applied here (so replays reproduce the form).
+#   form["arr"]     from_array only: "<int dtype>/<layout>" (forms.reform) or "nested-list"
+#   form["rowids"]  constructor only: "uint32-contiguous" | "uint32-column-view" | "uint32-readonly"
+#   form["common"]  "python-int" | "numpy.<int dtype>"
+ROWID_FORMS = ["uint32-contiguous", "uint32-contiguous", "uint32-column-view", "uint32-column-view", "uint32-readonly"]
+#   form["coords"]  constructor only: "python-int" | "numpy.<int dtype>" - type of the VALUE coordinate of every dict key
+# NumPy-scalar commons / coordinates are generated in ANY dtype that holds them, including AT the dtype's maximum
+# (np.uint8(255), np.int8(127), ...: the inferred extent max(...) + 1 wrapped there until fix F24).  Explicit extents as
+# NumPy scalars keep one unit of headroom (c02.add_cube_forms): the working extent e + 1 is still computed in the
+# scalar's own dtype (notes/cube-count.md, FORM-1b).
+SCALAR_HEADROOM = 0
+DTYPE_MAXES = {127: "int8", 255: "uint8", 32767: "int16", 65535: "uint16"}
+
+
+def apply_scalar(v, tag):
+    if not tag or tag == "python-int" or v is None:
+        return v
+    return numpy.dtype(tag.split(".", 1)[1]).type(v)
+
+
+def apply_rowids(rows, tag):
+    a = numpy.asarray(rows, dtype=numpy.uint32)
+    if tag == "uint32-column-view":
+        big = numpy.zeros((len(a), 2), dtype=numpy.uint32)
+        big[:, 0] = a
+        big[:, 1] = 0xFFFFFFFF
+        return big[:, 0]
+    if tag == "uint32-readonly":
+        a = a.copy()
+        a.setflags(write=False)
+    return a
+
+
+def scalar_tag(rng, v, p=0.35, headroom=SCALAR_HEADROOM):
+    if v is None or rng.random() >= p:
+        return "python-int"
+    if headroom == 0 and v in DTYPE_MAXES and rng.random() < 0.5:
+        return "numpy." + DTYPE_MAXES[v]              # exactly at the maximum of its dtype
+    cands = forms.int_dtypes_holding([v, v + headroom])
+    return "numpy." + rng.choice(cands) if cands else "python-int"
+
+
+def choose_form(rng, spec, p=0.5):
+    a = numpy.asarray(spec["arr"], dtype=numpy.int64)
+    form = {"common": scalar_tag(rng, spec["common"])}
+    if spec["how"] == "from_array":
+        if rng.random() < 0.12:
+            form["arr"] = "nested-list"
+        else:
+            dt = "int64"
+            if rng.random() < p:
+                dt = rng.choice(forms.int_dtypes_holding(a.flatten().tolist() + [spec["common"]]) or ["int64"])
+            form["arr"] = dt + "/" + forms.layout(rng, a, p)[1]
+    else:
+        form["rowids"] = rng.choice(ROWID_FORMS)
+        vals = [v for v in set(a.flatten().tolist()) if v != spec["common"]]
+        form["coords"] = "python-int"
+        if vals and rng.random() < 0.3:
+            top = max(vals)
+            if top in DTYPE_MAXES and min(vals) >= numpy.iinfo(DTYPE_MAXES[top]).min and rng.random() < 0.5:
+                form["coords"] = "numpy." + DTYPE_MAXES[top]
+            else:
+                form["coords"] = "numpy." + rng.choice(forms.int_dtypes_holding(vals))
+    return form
+
+
+def form_tags(spec):
+    f = spec.get("form") or {}
+    return ["%s=%s" % (k, f[k]) for k in sorted(f)]
+
+
 def build_dim(spec):
     from catii import iindex
     a = numpy.asarray(spec["arr"], dtype=numpy.int64)
     if a.ndim == 1 and len(spec["arr"]) == 0:
         a = a.reshape((0,) + tuple(spec.get("hshape", ())))
+    form = spec.get("form") or {}
+    common = apply_scalar(spec["common"], form.get("common"))
     if spec["how"] == "from_array":
-        return iindex.from_array(a, common=spec["common"])
+        tag = form.get("arr")
+        values = a.tolist() if tag == "nested-list" else (forms.reform(a, tag) if tag else a)
+        return iindex.from_array(values, common=common)
     ents = entries_from_dense(a, spec["common"])
     order = spec.get("order")
     if order is not None:
         ents = {tuple(k): ents[tuple(k)] for k in order}
-    return iindex(ents, spec["common"], tuple(a.shape))
+    ct = form.get("coords")
+    ents = {((apply_scalar(k[0], ct),) + tuple(k[1:])): apply_rowids(r, form.get("rowids")) for k, r in ents.items()}
+    return iindex(ents, common, tuple(a.shape))
 
 
-def make_spec(rng, arr, common, allow_from_array=True):
+def make_spec(rng, arr, common, allow_from_array=True, vary_form=True):
     a = numpy.asarray(arr, dtype=numpy.int64)
     how = "ctor"
     if allow_from_array and a.ndim <= 2 and a.size > 0 and a.min() >= 0 and rng.random() < 0.5:
@@ -53,6 +131,8 @@ def make_spec(rng, arr, common, allow_from_array=True):
         keys = list(entries_from_dense(a, common).keys())
         rng.shuffle(keys)
         spec["order"] = [list(k) for k in keys]
+    if vary_form:
+        spec["form"] = choose_form(rng, spec)
     return spec
 
 
